@@ -23,13 +23,37 @@ Theorem C09_not_recorded : forall D deqb dempty digest,
 Proof. exact failure_not_recorded. Qed.
 Print Assumptions C09_not_recorded.
 
+(* the same for a whole invocation, whatever the flags and whichever way the tasks were selected (named, the default task,
+   --clean with a task named clean): an executed task with a failing command makes the invocation exit 1, and unless the run
+   was cut short by an unreadable dependency or a runner error the error names an executed task, one of its commands and
+   that command's non-zero status *)
+Theorem C09_invocation : forall pick defs vars s f req s' ob n d,
+  invoke pick defs vars s f req = (s', ob) ->
+  In n (ob_executed ob) -> find_def defs n = Some d -> cmds_ok (td_cmds d) = false ->
+  ob_exit ob = 1 /\
+  ((exists e, ob_error ob = Some (ERun e)) \/
+   exists t c st d' x, ob_error ob = Some (ECommandFailed t c st) /\ st <> 0 /\ In t (ob_executed ob) /\
+     find_def defs t = Some d' /\ In x (td_cmds d') /\ c_cmd x = c /\ c_status x = st).
+Proof. exact invocation_fails. Qed.
+Print Assumptions C09_invocation.
+
 (* non-vacuity: task 0 fails with status 3 under --json --quiet-less invocation; the next plain run executes it again *)
 Definition bad := {| c_cmd := [101%N]; c_out := []; c_err := []; c_status := 3 |}.
 Definition defs := [ {| td_name := 0; td_deps := []; td_lits := [0]; td_globs := []; td_cmds := [bad] |} ].
 Definition s0 := apply_op_i (init_i (fun _ => None)) (Edit 0 (Some 1)).
 Example C09_nonvacuous :
-  let '(s1, o1) := invoke (fun _ l => l) defs s0 {| f_quiet := false; f_json := true; f_force := false; f_show := false |} [0] in
-  let '(_, o2) := invoke (fun _ l => l) defs s1 {| f_quiet := true; f_json := false; f_force := false; f_show := false |} [0] in
+  let '(s1, o1) := invoke (fun _ l => l) defs [] s0 {| f_quiet := false; f_json := true; f_force := false; f_show := false; f_vars := false; f_clean := false |} [0] in
+  let '(_, o2) := invoke (fun _ l => l) defs [] s1 {| f_quiet := true; f_json := false; f_force := false; f_show := false; f_vars := false; f_clean := false |} [0] in
   ob_exit o1 = 1 /\ ob_error o1 = Some (ECommandFailed 0 [101%N] 3) /\ ob_exit o2 = 1 /\ ob_executed o2 = [0].
 Proof. vm_compute. repeat split; reflexivity. Qed.
 Print Assumptions C09_nonvacuous.
+
+(* `spok --clean a` when the spokfile has its own task clean (2) whose command fails: that task is run, the invocation fails *)
+Definition defs_c := [ {| td_name := 2; td_deps := []; td_lits := []; td_globs := []; td_cmds := [bad] |};
+                       {| td_name := 0; td_deps := []; td_lits := []; td_globs := []; td_cmds := [] |} ].
+Example C09_clean_task_fails :
+  let '(_, o) := invoke (fun _ l => l) defs_c [] (init_i (fun _ => None))
+                   {| f_quiet := true; f_json := false; f_force := false; f_show := false; f_vars := false; f_clean := true |} [0] in
+  ob_exit o = 1 /\ ob_error o = Some (ECommandFailed 2 [101%N] 3) /\ ob_executed o = [2].
+Proof. vm_compute. repeat split; reflexivity. Qed.
+Print Assumptions C09_clean_task_fails.
